@@ -62,6 +62,32 @@ static void CheckOperandImages(const char* which, const RSForm& op, const json& 
     }
   }
 }
+// the same clauses with the operand given as an object: its definitions and texts are renamed by whole identifiers
+static std::string RenameIdentifiers(const std::string& text, const std::map<std::string, std::string>& map) { return RenameAliases(text, map); }
+static void CheckSchemaImages(const RSForm& op, const std::map<EntityUID, EntityUID>& image, const std::set<EntityUID>& keyUids, const std::set<EntityUID>& equated,
+                              const RSForm& res, bool noDangling, bool typed, const json& wit, vh::Report& r) {
+  std::map<std::string, std::string> names;
+  for (const auto u : op.List()) { const auto it = image.find(u); if (it != image.end() && res.Contains(it->second)) names[op.GetRS(u).alias] = res.GetRS(it->second).alias; }
+  for (const auto u : op.List()) {
+    const auto it = image.find(u);
+    ++r.checks;
+    json info = { {"operand", "schema"}, {"constituent", op.GetRS(u).alias} };
+    if (it == image.end()) { r.Violation("C12", "translation does not cover an operand constituent", wit, info); continue; }
+    if (!res.Contains(it->second)) { info["image"] = it->second; r.Violation("C12", "translation maps to a constituent that is not in the result", wit, info); continue; }
+    if (keyUids.count(u)) continue;
+    if (noDangling) {
+      const std::string expect = RenameIdentifiers(op.GetRS(u).definition, names);
+      if (res.GetRS(it->second).definition != expect) { info["got"] = res.GetRS(it->second).definition; info["expected"] = expect; r.Violation("C12", "definition of the image is not the operand's definition with every mention rewritten", wit, info); }
+      const std::string expectTx = RenameIdentifiers(op.GetText(u).definition.Raw(), names);
+      if (!equated.count(u) && res.GetText(it->second).definition.Raw() != expectTx) { info["got"] = res.GetText(it->second).definition.Raw(); info["expected"] = expectTx; r.Violation("C12", "text of the image is not the operand's text with every reference rewritten", wit, info); }
+    }
+    if (typed) {
+      if (!IsOk(res, it->second)) { r.Violation("C12", "correct operands and a like-with-like table, but the result is not fully correct", wit, info); continue; }
+      const std::string expect = RenameAliases(TypeOfCst(op, u), names);
+      if (TypeOfCst(res, it->second) != expect) { info["got"] = TypeOfCst(res, it->second); info["expected"] = expect; r.Violation("C12", "image does not keep its typification", wit, info); }
+    }
+  }
+}
 static void CompareWithModel(const RSForm& res, const json& items, const json& wit, vh::Report& r) {
   std::string diff; size_t i = 0;
   for (const auto u : res.List()) {
@@ -124,8 +150,15 @@ static void HandleSynth(const json& c, vh::Report& r) {
 }
 
 static void HandleEquate(const json& c, vh::Report& r) {
-  const json wit = { {"mode", "equate"}, {"a", c["a"]}, {"table", c["table"]} };
-  auto a = Build(c["a"]); auto orig = Build(c["a"]);
+  const bool twice = c["mode"] == "equate2";
+  json wit = { {"mode", c["mode"]}, {"a", c["a"]}, {"table", c["table"]} };
+  if (twice) wit["first"] = c["first"];
+  auto a = Build(c["a"]);
+  if (twice) {   // the same RSForm is equated a first time (admissible by construction of the case)
+    try { if (!a->Ops().Equate(TableOf(c["first"])).has_value()) { r.Drift("C12", "first table of a sequence refused", wit, {}); return; } }
+    catch (const std::exception& ex) { r.Violation("C12", "exception instead of a verdict", wit, { {"what", ex.what()} }); return; }
+  }
+  auto orig = std::make_unique<RSForm>(*a);
   const json pa = Project(*a);
   ++r.checks;
   bool equatable = false; std::optional<EntityTranslation> tr;
@@ -145,12 +178,14 @@ static void HandleEquate(const json& c, vh::Report& r) {
   if (!specDefined) r.Violation("C12", "table accepted although the rules refuse it", wit, {});
   std::set<EntityUID> pool; for (const auto u : a->List()) pool.insert(u);
   if (const auto inv = Invariants(*a, pool); !inv.empty()) { r.Violation("C12", "result schema: " + inv, wit, { {"got", Project(*a)} }); return; }
+  // exact translation: entries only for constituents of the schema the call was made on
+  for (const auto& [k, v] : *tr) if (!orig->Contains(k)) r.Violation("C12", "translation has an entry for an identifier that was not in the schema", wit, { {"key", k}, {"value", v} });
   std::map<EntityUID, EntityUID> image; for (const auto u : orig->List()) image[u] = tr->ContainsKey(u) ? (*tr)(u) : u;
   for (const auto& p : c["table"]) { ++r.checks; if (image[p[0].get<EntityUID>()] != image[p[1].get<EntityUID>()]) r.Violation("C12", "equated pair does not share one image", wit, { {"pair", p} }); }
   std::set<EntityUID> keys; for (const auto& p : c["table"]) keys.insert(p[0].get<EntityUID>());
   const bool typed = specDefined && c["correct"].get<bool>() && c["like"].get<bool>();
   std::set<EntityUID> eqAll; for (const auto& p : c["table"]) { eqAll.insert(p[0].get<EntityUID>()); eqAll.insert(p[1].get<EntityUID>()); }
-  CheckOperandImages("schema", *orig, c["a"], image, keys, eqAll, *a, c["noDangling1"].get<bool>(), typed, wit, r);
+  CheckSchemaImages(*orig, image, keys, eqAll, *a, c["noDangling1"].get<bool>(), typed, wit, r);
   if (specDefined) {
     CompareWithModel(*a, c["items"], wit, r);
     std::map<EntityUID, EntityUID> m; for (const auto& p : c["tr"]) m[p[0].get<EntityUID>()] = p[1].get<EntityUID>();
